@@ -47,6 +47,9 @@ def main():
     m_norace = tlc_ok(tlc("MCMemGrow", cfg="MemGrowImpl_racefree.cfg", workers=4, timeout=900), "MemGrowImpl racefree")
     wd = common.scratch("c18-")
     stats = {"schedules": 0}
+    if tier != "quick":
+        # bounds of the abstract protocol for ANY set of threads and any maximum (TLA+ proof system)
+        stats["proof_MemGrowProof"] = common.tlapm("MemGrowProof")
     try:
         exe = os.path.join(wd, "mg")
         rc, out, err = run(["gcc", "-O1", "-g", "-w", "-fsanitize=address", "-include", os.path.join(BINDC, "sched_shim.h"),
@@ -155,7 +158,8 @@ def main():
                    "wasmMemoryGrow under the deterministic scheduler, all schedules up to the preemption bound; distinct = distinct API "
                    "histories, each validated by TLC against MemGrowAbs incl. the final page count; ThreadSanitizer observes real threads",
            "model_read_before_lock_rejected": m_old["rc"] != 0, "model_plain_size_read_races": m_race["rc"] != 0,
-           "tsan_races": races, "schedules_run": stats["schedules"], "exhaustive": False}
+           "tsan_races": races, "schedules_run": stats["schedules"], "proofs": stats.get("proof_MemGrowProof"), "big_memory": stats.get("big_memory"),
+           "exploration": {k_: v_ for k_, v_ in stats.items() if "seam" in k_ or "skipped" in k_}, "exhaustive": False}
     return v.finish("model_checking", cov,
                     ["schedules exhaustive up to the preemption bound only", "data-race freedom is observed by ThreadSanitizer on sampled real executions and "
                      "stated in the model as a lockset condition; the C11 memory model itself is outside TLA+",
